@@ -76,6 +76,9 @@ type BaseStore struct {
 	muCache   sync.RWMutex
 	muIndex   sync.RWMutex
 	muJoining sync.Mutex
+	// muWrite makes appending an entry and persisting it as the local head one
+	// step with respect to other writers of this store
+	muWrite   sync.Mutex
 	sortFn    ipfslog.SortFn
 	logger    *zap.Logger
 	tracer    trace.Tracer
@@ -842,8 +845,10 @@ func (b *BaseStore) AddOperation(ctx context.Context, op operation.Operation, on
 
 	oplog := b.OpLog()
 
+	b.muWrite.Lock()
 	e, err := oplog.Append(ctx, data, &ipfslog.AppendOptions{PointerCount: b.referenceCount})
 	if err != nil {
+		b.muWrite.Unlock()
 		return nil, fmt.Errorf("unable to append data on log: %w", err)
 	}
 
@@ -852,10 +857,12 @@ func (b *BaseStore) AddOperation(ctx context.Context, op operation.Operation, on
 
 	marshaledEntry, err := json.Marshal([]ipfslog.Entry{e})
 	if err != nil {
+		b.muWrite.Unlock()
 		return nil, fmt.Errorf("unable to marshal entry: %w", err)
 	}
 
 	err = b.Cache().Put(ctx, datastore.NewKey("_localHeads"), marshaledEntry)
+	b.muWrite.Unlock()
 	if err != nil {
 		return nil, fmt.Errorf("unable to add data to cache: %w", err)
 	}
